@@ -1,3 +1,4 @@
 pub mod doc;
 pub mod rel;
+pub mod scan;
 pub mod text;
